@@ -59,6 +59,76 @@ func GenValidationCases(c *core.Ctx, nSchemas, perSchema int, feats map[string]i
 	return out
 }
 
+const overlapSchema = `interface Pet { name: String nick: String owner: Human friends: [Pet] }
+type Dog implements Pet { name: String nick: String owner: Human friends: [Pet] barks: Boolean tag: Int }
+type Cat implements Pet { name: String nick: String owner: Human friends: [Pet] meows: Boolean tag: String }
+type Human { name: String nick: String pet: Pet pets: [Pet] age: Int }
+type Query { pet: Pet human: Human dog: Dog cat: Cat }`
+
+// OverlapStress: documents whose fragments reuse a few response keys for different fields, spread
+// under exclusive parents (... on Dog / ... on Cat) and together; exercises the pair-scheduling
+// and its memo tables of OverlappingFieldsCanBeMerged in many orders.
+func OverlapStress(r *gen.Rng, n int) []VCase {
+	var out []VCase
+	keys := []string{"x", "y"}
+	leaf := map[string][]string{"Pet": {"name", "nick"}, "Dog": {"name", "nick", "barks", "tag"}, "Cat": {"name", "nick", "meows", "tag"}, "Human": {"name", "nick", "age"}}
+	comp := map[string][][2]string{"Pet": {{"owner", "Human"}, {"friends", "Pet"}}, "Dog": {{"owner", "Human"}, {"friends", "Pet"}}, "Cat": {{"owner", "Human"}, {"friends", "Pet"}}, "Human": {{"pet", "Pet"}, {"pets", "Pet"}}}
+	for i := 0; i < n; i++ {
+		nf := 2 + r.Intn(3)
+		fragType := make([]string, nf)
+		for j := range fragType {
+			fragType[j] = gen.Pick(r, []string{"Human", "Human", "Human", "Pet", "Dog", "Cat"})
+		}
+		var sel func(t string, depth int, from int) string
+		sel = func(t string, depth int, from int) string {
+			var sb strings.Builder
+			sb.WriteString("{ ")
+			m := 1 + r.Intn(4)
+			for k := 0; k < m; k++ {
+				switch c := r.Intn(9); {
+				case c <= 1:
+					sb.WriteString(gen.Pick(r, keys) + ": " + gen.Pick(r, leaf[t]) + " ")
+				case (c == 2 || c == 3) && depth > 0:
+					cf := gen.Pick(r, comp[t])
+					sb.WriteString(gen.Pick(r, []string{"o", "p"}) + ": " + cf[0] + " " + sel(cf[1], depth-1, from) + " ")
+				case (c == 4 || c == 5) && depth > 0 && (t == "Pet"):
+					sub := gen.Pick(r, []string{"Dog", "Cat"})
+					sb.WriteString("... on " + sub + " " + sel(sub, depth-1, from) + " ")
+				default:
+					// spread a later fragment of a compatible type
+					var cands []int
+					for j := from; j < nf; j++ {
+						ft := fragType[j]
+						if ft == t || (t == "Pet" && (ft == "Dog" || ft == "Cat")) || ((t == "Dog" || t == "Cat") && ft == "Pet") {
+							cands = append(cands, j)
+						}
+					}
+					if len(cands) > 0 {
+						sb.WriteString("...F" + itoa(gen.Pick(r, cands)) + " ")
+					} else {
+						sb.WriteString(gen.Pick(r, keys) + ": " + gen.Pick(r, leaf[t]) + " ")
+					}
+				}
+			}
+			sb.WriteString("}")
+			return sb.String()
+		}
+		var sb strings.Builder
+		root := gen.Pick(r, [][2]string{{"pet", "Pet"}, {"human", "Human"}, {"dog", "Dog"}})
+		sb.WriteString("{ " + root[0] + " " + sel(root[1], 3, 0) + " ")
+		if r.Bool() {
+			root2 := gen.Pick(r, [][2]string{{"pet", "Pet"}, {"human", "Human"}, {"cat", "Cat"}})
+			sb.WriteString("q2: " + root2[0] + " " + sel(root2[1], 3, 0) + " ")
+		}
+		sb.WriteString("}")
+		for j := 0; j < nf; j++ {
+			sb.WriteString(" fragment F" + itoa(j) + " on " + fragType[j] + " " + sel(fragType[j], 2, j+1))
+		}
+		out = append(out, VCase{Srcs: []string{overlapSchema}, Query: sb.String()})
+	}
+	return out
+}
+
 func valArgs(rules string, k VCase) [][]byte {
 	args := [][]byte{[]byte(rules), []byte(k.Query)}
 	for _, s := range k.Srcs {
@@ -70,12 +140,18 @@ func valArgs(rules string, k VCase) [][]byte {
 func runC08(c *core.Ctx) {
 	const thm = "C08_* (props/C08.v); model op val = Ops.dump_validate_with"
 	c.ReplayKnown()
-	nSchemas, per := 40, 25
+	nSchemas, per := 250, 30
 	if !c.Quick {
-		nSchemas, per = 400, 50
+		nSchemas, per = 3000, 50
 	}
 	feats := map[string]int{}
 	cases := GenValidationCases(c, nSchemas, per, feats)
+	nStress := 8000
+	if !c.Quick {
+		nStress = 60000
+	}
+	cases = append(cases, OverlapStress(c.Rng, nStress)...)
+	c.Count("overlap_stress_documents", int64(nStress))
 	for k, v := range feats {
 		c.Count("feature_"+k, int64(v))
 	}
@@ -97,10 +173,12 @@ func runC08(c *core.Ctx) {
 		if k.Expect == "invalid" {
 			missing := ""
 			// a single fault must be reported by its rule; several faults may mask one another
-			if rs := strings.Split(k.Rule, "+"); len(rs) == 1 && !strings.Contains(impl, rs[0]+"(") {
+			// (or cancel: leaf-with-selection then composite-without-selection restores the document)
+			rs := strings.Split(k.Rule, "+")
+			if len(rs) == 1 && !strings.Contains(impl, rs[0]+"(") {
 				missing = rs[0]
 			}
-			if (valid || missing != "") && !c.Explained(w, "val", impl, args...) {
+			if len(rs) == 1 && (valid || missing != "") && !c.Explained(w, "val", impl, args...) {
 				c.ReportOracle("rule-violation-not-reported", map[string]interface{}{"op": "val", "args": hexArgs(args), "schema": k.Srcs, "query": k.Query,
 					"faults": k.Fault, "expected_rule": missing, "implementation": impl})
 			}
